@@ -168,6 +168,9 @@ def replaceAllIter (eqv : V â†’ V â†’ Bool) (t : Tracker K V) (items : List (K Ã
 inductive Act | noop | update | stop
 deriving DecidableEq, Repr
 
+/-- The callback "apply unless the key is in `F`" (what cachingmap's callbacks and `IterBatched` amount to). -/
+def batchAct (F : K â†’ Bool) (k : K) : Act := if F k then .noop else .update
+
 /-- Effect of `IterActionUpdateDataplane` on one pending update. -/
 def applyUpd (t : Tracker K V) (kv : K Ã— V) : Tracker K V :=
   { t with du := del t.du kv.1, dd := set t.dd kv.1 kv.2 }
